@@ -21,13 +21,14 @@ HENC = z3.Function('HENC', z3.IntSort(), z3.IntSort(), z3.IntSort(), z3.IntSort(
 
 def cell_of(v, lo, hi, n):
     """grid cell of the finite value v in [lo, hi) split into n cells, clamped to the border cells"""
-    t = float_to_int((v - lo) * (to_float(n) / (hi - lo)))
+    w = ((v - lo) * (to_float(n) / (hi - lo))).val
+    t = SInt(z3.If(w >= 0, z3.ToInt(w), -z3.ToInt(-w)))      # mathematical truncation (no machine-integer range)
     return Ite(t < 0, SInt(0), Ite(t > n - 1, n - 1, t))
 
 
 def register(reg):
     def d2c_req(c):
-        return [('positive-cells', c.n >= 1), ('extent-not-degenerate', c.val_range[1] != c.val_range[0]),
+        return [('positive-cells', And(c.n >= 1, c.n <= 2 ** 32)), ('extent-not-degenerate', c.val_range[1] != c.val_range[0]),
                 ('unit-stride', c.vals.stride == 1)]
 
     def d2c_ens(c, r):
